@@ -124,7 +124,7 @@ def run(ctx):
         # G4: long random behaviours over the full universe
         n = 1500 if quick else 30000
         scripts += ctx.generate("Gen_ZoneTxn", gen_cfg(ctx, "g4.cfg", maxops=12, ops=tset(ALL), kinds=tset(["write"])),
-                                simulate="num=%d" % n, depth=16, seed=ctx.seed + 1, deadlock=False)
+                                simulate="num=%d" % n, depth=16, seed=ctx.seed + 1, deadlock=False, limit=4 * n)
         jobs = []
         for i, s in enumerate(scripts):
             # quick: two of the six zone configurations per script (spread deterministically);
